@@ -306,3 +306,107 @@ Proof.
 Qed.
 
 End Top4.
+
+(** ---- the whole run ---- *)
+Lemma NoDup_app_intro {A} (l1 l2 : list A) : NoDup l1 -> NoDup l2 -> (forall x, In x l1 -> ~ In x l2) -> NoDup (l1 ++ l2).
+Proof.
+  induction l1 as [|a r IH]; intros H1 H2 H; [exact H2|]. cbn. inversion H1; subst. constructor.
+  - intros Hi. apply in_app_or in Hi. destruct Hi as [Hi|Hi]; [contradiction|]. apply (H a); [left; reflexivity|exact Hi].
+  - apply IH; auto. intros x Hx. apply H. right. exact Hx.
+Qed.
+
+Lemma filter_split_length {A} (f : A -> bool) l :
+  length (filter f l) + length (filter (fun x => negb (f x)) l) = length l.
+Proof. induction l as [|a r IH]; [reflexivity|]. cbn. destruct (f a); cbn; lia. Qed.
+
+Lemma region_offs_nodup n : NoDup (region_offs n) /\ length (region_offs n) = n.
+Proof.
+  unfold region_offs. split; [|rewrite map_length, seq_length; reflexivity].
+  apply FinFun.Injective_map_NoDup; [|apply seq_NoDup]. intros x y H. lia.
+Qed.
+
+Section Final.
+Variable inp : sx.
+Notation cfg := (cfg_i inp).
+Notation good := (good (cfg_i inp) (alloc_i inp) (oldest_i inp) (init_i inp) (t0_i inp)).
+
+Definition nreg_i : nat := sx_nat (sx_nth (sx_nth inp 2) 0).
+Definition offs0_i : list Z := offs (p0_i inp).
+
+(** the restored blocks live at pairwise distinct regions of the device *)
+Definition dom04P : bool := nodupz offs0_i && forallb (fun o => zmem o (region_offs nreg_i)) offs0_i.
+
+Lemma run_sim_a ops : forall hints m a c, prel nreg_i m c -> arel a c -> good (x_sys (a_x a)) -> quiet cfg (x_sys (a_x a)) ->
+  exists r, run_ops_a cfg ops hints a = Ok r /\ exists c', prel nreg_i (fold_left (pm_step nreg_i) r m) c'.
+Proof.
+  induction ops as [|op ops IH]; intros hints m a c P R G Q.
+  - exists []. split; [reflexivity|]. exists c. exact P.
+  - cbn [run_ops_a]. cbv zeta.
+    match goal with |- context [quiesce _ 64 ?h _] =>
+      destruct (step_sim _ _ _ _ _ nreg_i m a c op h P R G Q) as [a1 [res [ev1 [x2 [Hd [Hq Hrest]]]]]] end.
+    rewrite Hd, Hq. unfold apbl in Hrest. cbv zeta in Hrest.
+    destruct (after_quiesce (length (releasedLog (s_pbl (x_sys (a_x a))))) (x_nwr (a_x a)) a1 x2) as [a2 ev2].
+    cbn [fst snd] in Hrest. destruct Hrest as [c2 [P2 [R2 [G2 Q2]]]].
+    destruct (IH (tl hints) _ a2 c2 P2 R2 G2 Q2) as [r [Hr [c' Hc']]]. rewrite Hr.
+    eexists. split; [reflexivity|]. exists c'. cbn [fold_left]. exact Hc'.
+Qed.
+
+(** THE MONITOR IS SILENT ON THE MODEL (C04P) *)
+Theorem mon04P_silent_on_model_h hints : dom04P = true -> mon04P inp (run04Ph inp hints) = [].
+Proof.
+  intros Hd. unfold dom04P in Hd. apply andb_true_iff in Hd. destruct Hd as [Hd1 Hd2]. apply nodupz_spec in Hd1.
+  unfold run04Ph, init_a. cbv zeta. change (cfg_of (sx_nth inp 0)) with cfg.
+  assert (Ebl : s_pbl (x_sys (init_x (sx_nth inp 0))) = p0_i inp) by (rewrite init_x_eq; reflexivity).
+  rewrite Ebl. fold (offs (p0_i inp)). fold offs0_i. fold nreg_i. cbn [a_x].
+  destruct (init_state inp true) as [x0 [Hq [R0 P0]]]. rewrite Hq. cbn [a_x a_free a_ids a_popped a_next].
+  set (ids := seq 0 (length (blocks (p0_i inp)))).
+  set (free := filter (fun o => negb (zmem o offs0_i)) (region_offs nreg_i)).
+  set (a1 := mkAst x0 free ids [] (length (blocks (p0_i inp)))).
+  set (c0 := mkAcc (combine ids offs0_i) [] [] free None).
+  assert (Hlen : length ids = length offs0_i).
+  { unfold ids, offs0_i. rewrite seq_length, offs_len. reflexivity. }
+  destruct (region_offs_nodup nreg_i) as [Hrn Hrl].
+  assert (Hsub : forall o, In o offs0_i -> In o (region_offs nreg_i)).
+  { intros o Ho. rewrite forallb_forall in Hd2. apply zmem_in. apply Hd2. exact Ho. }
+  assert (Hnd : NoDup (free ++ offs0_i)).
+  { apply NoDup_app_intro; [apply NoDup_filter; exact Hrn|exact Hd1|].
+    intros x Hx Hi. unfold free in Hx. apply filter_In in Hx. destruct Hx as [_ Hx].
+    apply zmem_in in Hi. rewrite Hi in Hx. discriminate. }
+  assert (Hcount : length free + length offs0_i = nreg_i).
+  { rewrite <- Hrl. rewrite <- (filter_split_length (fun o => negb (zmem o offs0_i)) (region_offs nreg_i)). fold free. f_equal.
+    symmetry. apply Permutation_length. apply NoDup_Permutation; [apply NoDup_filter; exact Hrn|exact Hd1|].
+    intros x. rewrite filter_In. split.
+    - intros [_ Hx]. apply zmem_in. destruct (zmem x offs0_i); [reflexivity|discriminate].
+    - intros Hx. split; [apply Hsub; exact Hx|]. apply zmem_in in Hx. rewrite Hx. reflexivity. }
+  assert (P : prel nreg_i
+                (pm_quiescent nreg_i
+                   (fold_left pm_event (map (fun p => L [A 0%Z; of_nat (fst p); A (snd p)]) (combine ids offs0_i)) pm_init)
+                   (length free)) c0).
+  { apply (q_check nreg_i _ c0). apply init_prel.
+    - rewrite map_fst_combine by exact Hlen. apply seq_NoDup.
+    - rewrite map_snd_combine by exact Hlen. exact Hnd.
+    - rewrite combine_length, Hlen, Nat.min_id. exact Hcount. }
+  destruct P0 as [Q1 Q2 Q3 Q3' Q4 Q5 Q6 Q7 Q8 Q9].
+  assert (R : arel a1 c0).
+  { destruct (p0_facts (alloc_i inp) (oldest_i inp) (init_i inp)) as [F1 [_ [F3 _]]].
+    constructor; unfold apbl; cbn [a1 c0 a_x a_ids a_popped a_free a_next c_listed c_rel c_pend c_free c_wr]; rewrite ?Q1; auto.
+    - unfold ids. apply seq_length.
+    - fold (p0_i inp) in F3. rewrite F3. reflexivity.
+    - fold (p0_i inp) in F1. rewrite F1. reflexivity.
+    - unfold writing_state. destruct Q7 as [E|E]; rewrite E; destruct Q6 as [E'|[E'|E']]; rewrite E'; reflexivity.
+    - intros id Hi. cbn [map app] in Hi. unfold ids in Hi. apply in_seq in Hi. lia. }
+  destruct (run_sim_a (sx_list (sx_nth inp 1)) hints _ a1 c0 P R (r1_good _ _ _ _ _ _ _ R0) (r1_quiet _ _ _ _ _ _ _ R0))
+    as [r [Hr [c' Pc']]].
+  fold ids. fold free. fold a1. rewrite Hr.
+  unfold mon04P. cbn [is_marker]. cbv zeta.
+  assert (N0 : forall a l, sx_nth (L (a :: l)) 0 = a) by reflexivity.
+  assert (N1 : forall a b l, sx_nth (L (a :: b :: l)) 1 = b) by reflexivity.
+  assert (NL : forall l, sx_list (L l) = l) by reflexivity.
+  rewrite !N0, !N1, !NL, sx_nat_of_nat. fold nreg_i.
+  rewrite (p_viol _ _ _ Pc'). reflexivity.
+Qed.
+
+Theorem mon04P_silent_on_model_ : dom04P = true -> mon04P inp (run04P inp) = [].
+Proof. apply mon04P_silent_on_model_h. Qed.
+
+End Final.
